@@ -71,6 +71,11 @@ struct Walk {
     empty_match: bool,
     match_at_end: bool,
     empty_match_at_end: bool,
+    adjacent_matches: bool,
+    n_matches: usize,
+    /// First violation of the regex contract the Lean model assumes (`matchesOk`): matches in
+    /// order, non-overlapping, start <= end, on char boundaries of the stage input.
+    assumption: Option<String>,
 }
 
 /// Instrumented walker: serialises `chain` into `ser` (with each Replace stage's match list on
@@ -93,9 +98,31 @@ fn run_collect(chain: &Chain, input: &str, ser: &mut String, w: &mut Walk) -> Re
         Chain::Replace { pattern, content } => {
             let re = FancyRegex::new(pattern).map_err(|_| ())?;
             let mut ms = Vec::new();
+            let mut last_end = 0usize;
             for m in re.find_iter(input) {
                 let m = m.map_err(|_| ())?;
                 let (s, e) = (m.start(), m.end());
+                if w.assumption.is_none() {
+                    let bad = if s > e {
+                        Some("start > end")
+                    } else if s < last_end {
+                        Some("overlaps or precedes the previous match")
+                    } else if e > input.len() || !input.is_char_boundary(s) || !input.is_char_boundary(e) {
+                        Some("not on char boundaries of the stage input")
+                    } else {
+                        None
+                    };
+                    if let Some(b) = bad {
+                        w.assumption = Some(format!(
+                            "ASSUMPTION regex match {s}-{e} of pattern {:?} {b} (previous end {last_end}, input {} bytes)",
+                            pattern,
+                            input.len()
+                        ));
+                    }
+                }
+                w.adjacent_matches |= !ms.is_empty() && s == last_end;
+                w.n_matches += 1;
+                last_end = e;
                 w.empty_match |= s == e;
                 w.match_at_end |= e == input.len();
                 w.empty_match_at_end |= s == e && e == input.len();
@@ -249,6 +276,17 @@ fn one(out: &mut Out, text: &str, chain: &Chain) {
             oracle(text, normalized, offsets),
         ),
     };
+    // Implementation-vs-assumption failure: reported separately from (and before) the property.
+    let fail = w.assumption.clone().or(fail);
+    if w.adjacent_matches {
+        out.bucket("replace_adjacent_matches");
+    }
+    out.bucket(match w.n_matches {
+        0 => "replace_matches_0",
+        1 => "replace_matches_1",
+        2..=4 => "replace_matches_2-4",
+        _ => "replace_matches_5+",
+    });
 
     out.bucket(&match chain {
         Chain::Bert { .. } => "top_bert".to_string(),
@@ -521,9 +559,32 @@ fn main() {
     run(&args)
 }
 
+/// Coverage request `I`: every `impl Normalizer for X` in the source under test. The model
+/// answers with the list of normalizers it models, so a new implementation shows up as a
+/// disagreement.
+fn coverage(out: &mut Out) {
+    let repo = std::env::var("VERIF_REPO").unwrap_or_else(|_| "/repo".to_string());
+    let ans = match std::fs::read_to_string(format!("{repo}/rten-text/src/normalizers.rs")) {
+        Ok(src) => {
+            let mut names: Vec<String> = src
+                .lines()
+                .filter_map(|l| l.trim_start().strip_prefix("impl Normalizer for "))
+                .map(|r| r.chars().take_while(|c| c.is_alphanumeric() || *c == '_').collect())
+                .collect();
+            names.sort();
+            names.dedup();
+            names.join(",")
+        }
+        Err(_) => "err:source-unreadable".to_string(),
+    };
+    out.bucket("coverage_request");
+    out.case("I", &ans, None, false);
+}
+
 fn run(args: &Args) {
     let mut out = Out::new(&args.out);
     let mut rng = Rng::new(args.seed);
+    coverage(&mut out);
 
     // (a) deterministic block: every leaf and every 2-stage Sequence of leaves on fixed texts.
     let mut leaves = vec![
